@@ -102,14 +102,66 @@ def check_props(pid):
     }
 
 
+def strip_coq_comments(src):
+    """remove (nested) Coq comments and string literals"""
+    out, depth, k, n = [], 0, 0, len(src)
+    in_str = False
+    while k < n:
+        if depth == 0 and src[k] == '"':
+            in_str = not in_str
+            k += 1
+            continue
+        if in_str:
+            k += 1
+            continue
+        if src.startswith("(*", k):
+            depth += 1
+            k += 2
+            continue
+        if depth and src.startswith("*)", k):
+            depth -= 1
+            k += 2
+            continue
+        if depth == 0:
+            out.append(src[k])
+        elif src[k] == "\n":
+            out.append("\n")
+        k += 1
+    return "".join(out)
+
+
+FORBIDDEN = re.compile(r"\b(Admitted|admit|Axiom|Axioms|Parameter|Parameters|Conjecture|Conjectures|Admit\s+Obligations)\b"
+                       r"|Unset\s+Guard|Unset\s+Positivity|Unset\s+Universe|bypass_check|type-in-type|impredicative-set")
+
+
 def grep_gate():
-    """No Admitted/Axiom/... anywhere in the development."""
-    rc, out = sh(
-        r"grep -rnE '\b(Admitted|admit|Axiom|Parameter|Conjecture|Admit Obligations)\b|Unset Guard|bypass_check|type-in-type' "
-        r"--include=*.v . | grep -v '^./cases' | grep -v '(\*.*\*)' || true",
-        cwd=COQ,
-    )
-    return [l for l in out.splitlines() if l.strip()]
+    """No Admitted / Axiom / Parameter / Conjecture / disabled kernel check anywhere in the development (comments and
+    strings are stripped first), and no Variable / Hypothesis / Context outside a section (those declare axioms too)."""
+    bad = []
+    for root, _dirs, files in os.walk(COQ):
+        for fn in sorted(files):
+            if not fn.endswith(".v") or fn.startswith("cases"):
+                continue
+            path = os.path.join(root, fn)
+            code = strip_coq_comments(open(path).read())
+            sections = []
+            for ln, line in enumerate(code.splitlines(), 1):
+                m = FORBIDDEN.search(line)
+                if m:
+                    bad.append(f"{os.path.relpath(path, COQ)}:{ln}: {line.strip()[:160]}")
+                ms = re.match(r"\s*Section\s+(\w+)\s*\.", line)
+                if ms:
+                    sections.append(ms.group(1))
+                me = re.match(r"\s*End\s+(\w+)\s*\.", line)
+                if me and sections and sections[-1] == me.group(1):
+                    sections.pop()
+                if not sections and re.match(r"\s*(Local\s+|Global\s+)?(Variable|Variables|Hypothesis|Hypotheses|Context)\b", line):
+                    bad.append(f"{os.path.relpath(path, COQ)}:{ln}: outside a section: {line.strip()[:160]}")
+    for extra in ("_CoqProject",):
+        txt = open(os.path.join(COQ, extra)).read()
+        if re.search(r"type-in-type|impredicative-set|-noinit", txt):
+            bad.append(f"{extra}: forbidden flag")
+    return bad
 
 
 def _parse_lists(out):
